@@ -942,6 +942,11 @@ def mon_C08(blocks):
                 out.append(Violation(b.idx, "after LogIn the session carries %s" % b.ss["us"]))
             if pre is not None and _unq(pre["id"]) == nid:
                 out.append(Violation(b.idx, "LogIn did not change the session id"))
+            elif not b.cks or b.cks[-1]["value"] != nid:
+                # "its ID has changed" for the client too: the response has to END with the cookie of the new id, whatever
+                # session cookies (a deletion, an earlier id) it already carried
+                out.append(Violation(b.idx, "after LogIn the response does not end with a cookie for the session's new id %s but with %s" % (
+                    nid, b.cks[-1]["value"] if b.cks else "no cookie")))
             rec = b.store.get(nid)
             if rec is None or rec == "undecodable" or rec["us"] != uid:
                 out.append(Violation(b.idx, "stored record under the new id does not carry the user"))
